@@ -498,7 +498,7 @@ func RunHistory(rt *rapid.T, b *vx.B, o Opts) *Result {
 		kinds = append(kinds, "drop", "drop", "restart", "partition", "corrupt", "gossipLimited", "heal")
 	}
 	if o.RemovalBias {
-		kinds = append(kinds, "deliverOld", "deliverOld", "deliverOld", "unregister", "removeOwner", "removePartition", "advanceSmall")
+		kinds = append(kinds, "deliverOld", "deliverOld", "hazard", "hazard", "hazard", "unregister", "removeOwner", "removePartition", "advanceSmall")
 	}
 	if o.ShortRetention {
 		kinds = append(kinds, "advanceLong", "advanceLong", "deliverOld")
@@ -652,6 +652,43 @@ func RunHistory(rt *rapid.T, b *vx.B, o Opts) *Result {
 				continue
 			}
 			e.deliver(w, targets[rapid.IntRange(0, len(targets)-1).Draw(rt, "target")])
+		case "hazard":
+			// constructed: a message carrying an entry alive, delivered to a node that holds the tombstone
+			type hz struct {
+				w  *Wire
+				to int
+			}
+			var cands []hz
+			for t := 0; t < n; t++ {
+				r, p := c.State(t)
+				tomb := tombstonesOf(r, p)
+				if len(tomb) == 0 {
+					continue
+				}
+				for _, w := range c.Pool {
+					if w.From == t {
+						continue
+					}
+					mr, mp := w.Ring, w.PRing
+					if mr == nil {
+						mr = ring.NewDesc()
+					}
+					if mp == nil {
+						mp = ring.NewPartitionRingDesc()
+					}
+					for ent, ts := range liveOf(mr, mp) {
+						if tts, ok := tomb[ent]; ok && ts <= tts {
+							cands = append(cands, hz{w, t})
+							break
+						}
+					}
+				}
+			}
+			if len(cands) == 0 {
+				continue
+			}
+			pick := cands[rapid.IntRange(0, len(cands)-1).Draw(rt, "hazardPick")]
+			e.deliver(pick.w, pick.to)
 		case "drop":
 			if len(c.Pool) == 0 {
 				continue
@@ -745,6 +782,10 @@ func RunHistory(rt *rapid.T, b *vx.B, o Opts) *Result {
 			e.log("register a watcher on node %d", node)
 		}
 		vx.Wait()
+		if res.Failure == "" && (o.RemovalBias || rapid.Bool().Draw(rt, "sendQueued")) {
+			// the node's queued broadcasts go on the wire (the adversary decides if and when they arrive)
+			c.GossipRound(node, math.MaxInt32)
+		}
 		if o.ShortRetention && res.Failure == "" {
 			e.checkRetention(retentionShort)
 		}
